@@ -14,8 +14,10 @@ from .sym import (SArr, MutList, EngineValue, Opt, Maybe, Sym, SBool, SInt, SStr
 class Model(EngineValue):
     """A callable implemented by the engine: fn(interp, *args, **kw)."""
 
-    def __init__(self, fn, name=None):
+    def __init__(self, fn, name=None, pure=None):
         self.fn, self.name = fn, name or fn.__name__
+        # the engine's own method models (this module) are aware of the guards of a merged `if`; a contract's models are not
+        self.pure = (getattr(fn, "__module__", None) == __name__) if pure is None else pure
 
     def __repr__(self):
         return f"<Model {self.name}>"
